@@ -167,6 +167,15 @@ def _resolve_concat(conc: Concat) -> Concat:
         rest = _resolve_concat(Concat(*conc.parts[1:]))
         return Concat(*(first.parts + rest.parts))
 
+    if isinstance(conc.parts[0], (PortRef, BundleRef)):
+        # A reference which nothing re-parented (e.g. to a port tied to a bundle-member). Resolve it here.
+        first = _resolve_ref(conc.parts[0])
+        first = first.parts if isinstance(first, Concat) else (first,)
+        if len(conc.parts) == 1:
+            return Concat(*first)
+        rest = _resolve_concat(Concat(*conc.parts[1:]))
+        return Concat(*(first + rest.parts))
+
     if isinstance(conc.parts[0], Slice):
         # Resolve everything within the Slice to a list of concrete-Signal slices
         first = _resolve_slice(conc.parts[0])
